@@ -154,3 +154,12 @@ Theorem C12_udp_step_h_no_hooks :
     udp_step I mac t u st clock ip packet.
 Proof. exact @udp_step_h_no_hooks. Qed.
 Print Assumptions C12_udp_step_h_no_hooks.
+
+(* ---- a backlog of accepted requests: the updates of announces of pairwise different peers may be applied in ANY order (each
+   frontend runs the post-response processing of a request in a goroutine of its own): every swarm ends up the same *)
+From Chihaya Require Import Proofs.SpecP.
+Theorem C12_backlog_order_irrelevant :
+  forall clock (l l' : list ann), Permutation l l' -> base.NoDup (map akey l) ->
+    forall sp sp', obs_eq sp sp' -> obs_eq (apply_all clock l sp) (apply_all clock l' sp').
+Proof. exact updates_order_irrelevant. Qed.
+Print Assumptions C12_backlog_order_irrelevant.
